@@ -66,7 +66,9 @@ CHECKS = {
         text="TLC checks the flag laws of the Target machine for every context combination, order and small scene; real "
              "histories of render calls under random flag combinations, both target kinds, both vertex orders, mirrored "
              "viewports and both front doors are recorded (planes + statistics after each call) and validated by TLC; "
-             "facing is decided by TLC from exact lattice determinants.",
+             "facing is decided by TLC from exact lattice determinants. Extra coverage (notes only): the Stats accumulator "
+             "(Stats.tla) and the render-batch builder as a typestate machine (BatchB.tla): TLC-generated histories are "
+             "rendered to Rust functions, compiled, run on the real builder and judged by TV_BatchB.",
         design="DESIGN.md §5 C07",
         note=TRUST + "; footprints and clip piece counts of single triangles come from the implementation; footprints must satisfy Target!SceneOK"),
     "C04": dict(
@@ -138,7 +140,8 @@ CHECKS = {
         text="TLC proves the 8/255 round-trip bound, totality and the gray laws for the transcribed 8-bit algorithms over "
              "every triple, and judges the real code at property level: all 2^24 RGB and HSL 8-bit triples (aggregated per "
              "row; quick: sub-lattice), float round trips on the k/24 and k/60 grids plus random and boundary-adjacent "
-             "triples, packing byte order lane by lane, float-to-u8 clamping and saturating addition.",
+             "triples, packing byte order lane by lane, float-to-u8 clamping and saturating addition; the float conversions "
+             "also under the no-feature, libm and micromath builds of the crate.",
         design="DESIGN.md §5 C16",
         note=TRUST + "; per-row aggregation and 2^20 scaling in harness/src/color.rs"),
     "C20": dict(
@@ -160,7 +163,9 @@ CHECKS = {
              "composition-as-sequencing, multiplicative determinants, adjugate inverses and orthogonality on the spec, and "
              "exports each path; the real code rebuilds each path with its constructors through compose and then, and its "
              "matrix, probe images, determinant, inverse, both inverse compositions and transpose are judged by TLC against "
-             "the exact product.",
+             "the exact product; rotations by many turns must have the sine and cosine of the same angle as entries; "
+             "orient_y/z are judged on lattice vectors against exact integer cross products. Extra coverage (notes only): "
+             "the vector / point algebra (VecAlg.tla).",
         design="DESIGN.md §5 C09",
         note=TRUST + "; known finding: apply() on vectors includes the translation"),
     "C18": dict(
@@ -210,7 +215,7 @@ CHECKS = {
         technique="TLA+ typing relation Types over a finite universe of tagged types and operations (one- and two-step "
                   "programs, result-annotated ones); TLC checks inhabitedness of every misuse class, twins and renaming "
                   "invariance and exports every program; the compiler's verdict on each rendered program is validated by TLC",
-        text="TLC enumerates every program of the universe (about 1200), checks that each misuse class of the statement is "
+        text="TLC enumerates every program of the universe (about 1600, incl. the library's named maps and camera modes), checks that each misuse class of the statement is "
              "inhabited, that every rejected program has a well-typed twin and that verdicts are invariant under renaming "
              "of bases; each program is rendered to a Rust function and type-checked by rustc against the real crate - the "
              "accepted module must compile cleanly, every rejected function must own a type error - and TLC compares the "
